@@ -25,6 +25,41 @@ def check_one(index, n, k):
     return None
 
 
+def check_kernel_triples(seed, sizes):
+    import numpy as np
+    from batchie.scoring.gaussian_dbal import dbal_fast_gauss_scoring_vectorized
+    rec = []
+
+    class Rec(np.ndarray):
+        def __getitem__(self, ix):
+            if isinstance(ix, tuple) and len(ix) == 2 and all(isinstance(x, np.ndarray) and x.ndim == 1 for x in ix):
+                rec.append((np.asarray(ix[0]).copy(), np.asarray(ix[1]).copy()))
+            return np.asarray(super().__getitem__(ix))
+    for n in sizes:
+        for budget in ((math.comb(n, 3) + 5, 50) if n <= 12 else (200,)):
+            del rec[:]
+            D = np.broadcast_to(np.float64(1.0), (n, n)).view(Rec)
+            rng = np.random.default_rng(seed + n)
+            pred = rng.normal(size=(1, n, 1)); var = np.ones((1, n, 1))
+            try:
+                dbal_fast_gauss_scoring_vectorized(pred, var, D, rng, max_combos=budget)
+            except Exception as e:  # noqa
+                return {"index": 0, "n": n, "k": 3, "what": "scoring kernel raised %r with %d posterior samples (budget %d)" % (e, n, budget)}
+            if len(rec) < 3: return None  # the kernel no longer reads the distance matrix by index pairs: nothing observed, nothing claimed
+            (a1, a2), (b2, b3), (c1, c3) = rec[0], rec[1], rec[2]
+            if not (np.array_equal(a1, c1) and np.array_equal(a2, b2) and np.array_equal(b3, c3)): return None  # another access pattern: nothing claimed
+            T = np.stack([a1, a2, b3], axis=1).astype(object)
+            want = min(math.comb(n, 3), budget)
+            tl = [tuple(int(x) for x in t) for t in T]
+            what = None
+            if len(tl) != want: what = "%d triples used, expected min(C(n,3), budget) = %d" % (len(tl), want)
+            elif any(not (n > t[0] > t[1] > t[2] >= 0) for t in tl): what = "triple %r is not strictly descending within range(%d)" % (next(t for t in tl if not (n > t[0] > t[1] > t[2] >= 0)), n)
+            elif len(set(tl)) != len(tl): what = "the triples used for scoring are not pairwise distinct"
+            elif budget >= math.comb(n, 3) and set(tl) != {tuple(sorted(c, reverse=True)) for c in itertools.combinations(range(n), 3)}: what = "budget covers every triple but not all are used"
+            if what: return {"index": 0, "n": n, "k": 3, "what": what + " (n_thetas=%d, budget=%d)" % (n, budget)}
+    return None
+
+
 def main():
     ap = argparse.ArgumentParser()
     ap.add_argument("--tier", default="quick"); ap.add_argument("--seed", type=int, default=0)
@@ -33,6 +68,8 @@ def main():
     viol = []
     if a.replay:
         d = json.load(open(a.replay))["input"]
+        if d.get("site", "").endswith("#triples"):
+            r = check_kernel_triples(a.seed, (d["n"],)); print(json.dumps({"violations": [dict(d, what=r["what"])] if r else []})); return
         r = check_one(d["index"], d["n"], d["k"])
         print(json.dumps({"violations": [dict(d, what=r)] if r else []}))
         return
@@ -79,8 +116,14 @@ def main():
                     viol.append({"index": j, "n": n, "k": k, "what": r, "site": "get_combination_at_sorted_index"})
             if not viol and not (unrank(i, n, k) < unrank(i + 1, n, k)):
                 viol.append({"index": i, "n": n, "k": k, "what": "successor not ascending", "site": "get_combination_at_sorted_index"})
+    # the triples of posterior samples the scoring kernel ACTUALLY uses (observed through a recording distance matrix): pairwise distinct, strictly
+    # descending, within range, min(C(n,3), budget) of them - and all of them when the budget covers every triple; n up to the production regime
+    if not a.search:
+        r = check_kernel_triples(a.seed, (3, 4, 7, 12, 300, 2400, 3000, 4000) if a.tier == "quick" else (3, 4, 5, 7, 9, 12, 40, 300, 1200, 2345, 2346, 2400, 2954, 2955, 3000, 4000, 6000))
+        evals += 8
+        if r and len(viol) < 5: viol.append(dict(r, site="dbal_fast_gauss_scoring_vectorized#triples"))
     print(json.dumps({"violations": viol, "bounded": [{
-        "function": "get_combination_at_sorted_index", "bound": "exhaustive n<=%d, k<=4; %d sampled (n<4000,k<=4) index pairs" % (nmax, big),
+        "function": "get_combination_at_sorted_index", "bound": "exhaustive n<=%d, k<=4; %d sampled (n<4000,k<=4) index pairs; triples used by the scoring kernel observed for n_thetas up to %d" % (nmax, big, 4000 if a.tier == "quick" else 6000),
         "evaluations": evals, "distinct_nontrivial": distinct + big, "label": "bounded stand-in, not counted as proved"}]}))
 
 
